@@ -616,6 +616,10 @@ func c24RunReplay(r *ev.R, rf *ev.ReplayFile) {
 		r.HarnessError("replay: %v", err)
 		return
 	}
+	if strings.HasPrefix(rp.Kind, "retention-") {
+		c24rRunReplay(r, rf) // c24_retention_test.go
+		return
+	}
 	e := r.NewEnum("replay")
 	var v *c24Viol
 	var out string
@@ -1076,7 +1080,10 @@ var c24StructuralBytes = []byte{'{', '}', '[', ']', '"', ',', ':', '0', 'n', 't'
 
 type c24Doc struct {
 	name string
-	data []byte
+	data []byte // harness-owned bytes: what Encode returned, copied the moment it returned
+	// asReturned is the slice Encode returned, kept uncopied while the other documents are
+	// encoded. Only the retention section (c24_retention_test.go, c24rCanonicalBuild) looks at it.
+	asReturned []byte
 }
 
 // c24CanonicalDocs: one canonical message per JSON-RPC message shape the package knows.
@@ -1088,7 +1095,12 @@ func c24CanonicalDocs(r *ev.R) []c24Doc {
 			r.HarnessError("canonical %s: %v", name, err)
 			return
 		}
-		docs = append(docs, c24Doc{name, b})
+		// The documents are kept while 15 more Encode calls are made. The Decode sections work on
+		// the harness's own copy (taken here, before any other call), so that an Encode whose
+		// result does not survive later calls is JUDGED - by the retention section, which compares
+		// asReturned with this copy after the last call - instead of silently corrupting the
+		// canonical documents of the Decode neighbourhood (which would show up as failed guards).
+		docs = append(docs, c24Doc{name: name, data: append([]byte(nil), b...), asReturned: b})
 	}
 	hdr := frame.Framer{NoPersist: true, End: true}
 	add("connect", c24ClientMessage(&frame.ConnectPacket{Framer: hdr, Version: 4, ClientKey: "ck", DeviceID: "d1", DeviceFlag: 1, ClientTimestamp: 1700000000123, UID: "u1", Token: "t\"k"}, "req-1", 0))
@@ -1117,9 +1129,9 @@ func c24CanonicalDocs(r *ev.R) []c24Doc {
 	add("error-response", jsonrpc.NewGenericResponseWithErr("req-9", &jsonrpc.ErrorObject{Code: -32000, Message: "boom", Data: map[string]any{"k": []int{1}}}))
 	add("result-response", jsonrpc.NewGenericResponse("req-8", json.RawMessage(`{}`)))
 	docs = append(docs,
-		c24Doc{"doc-minimal-ping", []byte(`{"method":"ping","id":"p"}`)},
-		c24Doc{"doc-minimal-connect", []byte(`{"method":"connect","id":"1","params":{"uid":"u","token":"t","deviceFlag":0}}`)},
-		c24Doc{"doc-minimal-recvack", []byte(`{"method":"recvack","params":{"messageId":"7","messageSeq":1}}`)})
+		c24Doc{name: "doc-minimal-ping", data: []byte(`{"method":"ping","id":"p"}`)},
+		c24Doc{name: "doc-minimal-connect", data: []byte(`{"method":"connect","id":"1","params":{"uid":"u","token":"t","deviceFlag":0}}`)},
+		c24Doc{name: "doc-minimal-recvack", data: []byte(`{"method":"recvack","params":{"messageId":"7","messageSeq":1}}`)})
 	return docs
 }
 
@@ -1269,4 +1281,5 @@ func TestVerifC24(t *testing.T) {
 	r.Assume("request ids are non-empty strings (the only ids Decode accepts for requests and responses)")
 	c24RoundTrips(r)
 	c24DecodeNeighbourhood(r)
+	c24Retention(r) // c24_retention_test.go: call sequences with retained results
 }
